@@ -410,6 +410,13 @@ def gen_stack_case(rng, names, style, is_async=None, tier='quick', redeco=None, 
     nameless: what is decorated is functools.partial(f) / an instance with __call__; badrepr: 'arg' | 'result' | 'any'"""
     if nameless is None and sig is None and redeco is None and rng.random() < 0.06:
         nameless = rng.choice(['partial', 'partial', 'object'])
+    if nameless:
+        # overrides looks the NAME up in the base class: above a wrapper of a nameless callable that name is the wrapper's
+        # own ("wrapper"), which is a different question; keep overrides directly on the callable only
+        # (likewise require_kwargs above another wrapper: DecoratedFunction calls inspect.getsource, which unwraps down
+        # to the partial and raises TypeError - same family, not modelled)
+        names = [d for i, d in enumerate(names) if d not in ('overrides', 'require_kwargs') or i == len(names) - 1] or ['trace']
+        redeco = [d for d in (redeco or []) if d not in ('overrides', 'require_kwargs')]
     method = rng.random() < 0.3 if (sig is None and not nameless) else False
     is_async = rng.random() < 0.45 if is_async is None else is_async
     sig = gen_sig(rng, method, collide=collide) if sig is None else sig
@@ -425,6 +432,10 @@ def gen_stack_case(rng, names, style, is_async=None, tier='quick', redeco=None, 
             case['async'] = is_async = False          # iscoroutinefunction does not look into __call__
         case['nameless'], case['apply'] = nameless, 'call'
     case['stack'] = [gen_level(rng, d, sig, method, style) for d in names]
+    if nameless:
+        for l in case['stack']:
+            if l['d'] == 'overrides':
+                l['dir'] = True       # (a missing name is a different question when there is no name at all)
     if redeco:
         case['redeco'] = [gen_level(rng, d, sig, method, 'valid') for d in redeco]
     everything = names + list(redeco)
